@@ -483,15 +483,21 @@ def c18(res, thorough):
                    "that every quiescent state reached by the real code is well-formed is decided on explored schedules (the dump of each final state is judged by the Lean functions), not proved about algorithm models",
                    "covered variants: MichaelList, LazyList, IterableList (HP), SkipListSet (HP, RCU gpi), EllenBinTreeSet (HP), BronsonAVLTreeMap (RCU gpi, relaxed insert), SplitListSet over MichaelList (HP, with and without colliding hashes), each with and without item counter; "
                    "DHP and the other RCU flavours share the code paths and are not dumped"],
-             partial=["'every reachable quiescent state is well-formed' as a theorem: not proved (explored schedules only)"])
+             partial=["'every reachable quiescent state is well-formed' as a theorem: proved for the MichaelList, LazyList, SplitListSet machines and for level 0 of the SkipListSet machine (Props/C18Reach, every reachable state, not only quiescent ones; "
+                      "Michael and Lazy additionally tied by comparing the real final structure with the machine's final state); NOT proved: skip-list upper levels (sub-list clause), SplitListSet item counter and 'every linked dummy is published at quiescence', "
+                      "EllenBinTree, BronsonAVLTreeMap, IterableList (explored schedules only)"])
     res.cov["rule"] = ("cases = (client program, schedule) pairs; after each program the main thread dumps the structure; distinct = distinct (variant, atomic-operation sequence hash); "
                        "non-trivial = contains a failed CAS or a back-off; sequential runs (one thread) are included as a separate run")
-    lean_step(res, "CdsVerif.Props.C18", thorough)
+    lean_step(res, ["CdsVerif.Props.C18", "CdsVerif.Props.C18Reach"], thorough)
     n = 30000 if thorough else 6000
     steps.tie_S(res, "snap", [{"args": ["--mode", "mixed", "--threads", "3", "--ops", "5"], "cases": n},
                               {"args": ["--mode", "mixed", "--threads", "4", "--ops", "4"], "cases": n // 2},
                               {"args": ["--mode", "seq", "--threads", "1", "--ops", "14"], "cases": n},
                               {"args": ["--mode", "enum2" if thorough else "enum1", "--threads", "2", "--ops", "3"], "cases": 34 if thorough else 17}])
+    # reachable => well-formed for the containers that have a proved machine (Props/C18Reach): the real structure dumped at the quiescent end of a
+    # replayed case must be exactly the rendering (snapOf / memSnapOf) of the machine state the replay ended in
+    tie_A(res, "list", "michael", [{"args": ["--mode", "mixed", "--threads", "4", "--ops", "5", "--variant", "imichael_hp_named"], "cases": 8000 if thorough else 1000}])
+    tie_A(res, "list", "lazy", [{"args": ["--mode", "mixed", "--threads", "4", "--ops", "5", "--variant", "ilazy_hp_named"], "cases": 8000 if thorough else 1000}])
     # the leftovers that matter are rare (a marked node left linked, a stale height): dense runs on the variants that can have them
     for v in ("michael_hp", "michael_hp_cnt", "split_michael_hp", "bronson_gpi", "bronson_gpi_cnt", "bronson_gpi_relaxed", "skip_hp", "lazy_hp"):
         steps.tie_S(res, "snap", [{"args": ["--mode", "mixed", "--threads", "3", "--ops", "5", "--variant", v], "cases": 16000 if thorough else 5000}], label="snap-dense")
@@ -539,13 +545,21 @@ def c20(res, thorough):
 
 def c17(res, thorough):
     import purespec
-    base_cov(res, ["sequential (single-threaded) growth only: concurrent resizes belong to C14/C16", "no Lean model of the cuckoo relocation/resize yet: decided by differential runs against a std::set reference",
+    base_cov(res, ["sequential (single-threaded) growth only: concurrent resizes belong to C14/C16",
+                   "Algo/Cuckoo: sequential Lean model of CuckooSet, arity 2 (insert / erase / contains / relocate with its round limit / resize INCLUDING the branch that drops a key when both target probe sets are full; "
+                   "hash functions, probe-set size and threshold are parameters), tied by layout-exact differential runs (tools/cuckoo_tie.py: result, bucket count, size() and the order of the keys in every probe set after every operation; "
+                   "the model loses the same key at the same operation and runs out of fuel exactly where the real insert keeps doubling). Theorems (Props/C17Cuckoo): resize is exact up to the ghost list of dropped keys (C17_cuckoo_resize_exact), "
+                   "preserves contains / size / no-duplicates under the decidable room hypothesis, which is also necessary (C17_cuckoo_resize_preserves_partial, C17_cuckoo_resize_room_iff, C17_cuckoo_resize_lost_iff), "
+                   "the full statement is FALSE (C17_cuckoo_resize_can_drop, C17_cuckoo_resize_full_statement_false, C17_cuckoo_witness_run = the kept witness: known finding), erase and insert laws on the invariant",
+                   "Algo/Cuckoo/StripedSeq: sequential StripedSet rehash, C17_striped_rehash_preserves for EVERY hash function (not tied differentially; the concurrent machine of C16 proves no loss / no duplication across rehash and is tied by replay)",
+                   "SplitListSet / FeldmanHashSet growth: addressing theorems of C27 / C28 + differential runs against std::set",
                    "hash families of bounded range with more keys than the addressable buckets make CuckooSet resize forever (liveness; such configurations are reported as hangs, not as C17 violations)"],
-             partial=["resize preserves the element set, as theorems about pure models of striped/cuckoo rehash: not proved yet"])
+             partial=["cuckoo resize: preservation only under the room hypothesis (false without it: known finding); cuckoo insert: under 'the call returns' and 'nothing lost'", "StripedSeq model not tied to the code; SplitList / Feldman growth as theorems about a growth model: not proved (addressing theorems + differential runs)"])
     res.cov["rule"] = ("single-threaded insert/erase sequences (40-180 operations) on CuckooSet (list and vector probe sets), StripedSet and SplitListSet with degenerate hash families "
                        "(constant, k mod 2, k mod 3, (k/3) mod 3, k*16, k>>2, identity), probe-set sizes 2-4, thresholds, initial capacities 1-8, load factors 1-3; after EVERY operation contains() of every key "
                        "and size() are compared with std::set; distinct = distinct case lines; non-trivial = all (each grows the table several times)")
-    lean_step(res, ["CdsVerif.Props.C17", "CdsVerif.Props.C27", "CdsVerif.Props.C28"], thorough)
+    lean_step(res, ["CdsVerif.Props.C17", "CdsVerif.Props.C17Cuckoo", "CdsVerif.Props.C27", "CdsVerif.Props.C28"], thorough)
+    import cuckoo_tie
     exe = steps.build_pure("resize", ["resize.cpp"], with_libcds=True)
     n = 6000 if thorough else 700
     first = 0
@@ -567,6 +581,13 @@ def c17(res, thorough):
             bad = purespec.compare_resize(inp, impl.split(), [])
             if bad:
                 cls, _, txt = bad[1:].partition(": ")
+                if cls == "lost-withroom" and inp.split()[0].startswith("cuckoo_") and cuckoo_tie.model_reproduces(exe, inp):
+                    # the key was dropped by an earlier resize() inside the same insert and a later resize made room again, so the harness'
+                    # classifier sees room; the Lean model of the UNCHANGED code (whose only losing branch is the full-sets branch of resize,
+                    # C17_cuckoo_resize_lost_iff) reproduces the whole run layout for layout, losing the same key at the same operation:
+                    # the recorded finding, not a new one
+                    cls = "lost-fullsets"
+                    res.add("lost_withroom_lines_reproduced_by_the_model")
                 res.violation("resize:%s:%s" % (inp.split()[0], cls), {"kind": "pure-input", "input": inp[:3000], "observed": impl.strip()[-300:], "why": txt,
                                                                         "cmd": "%s %d %d <case index from the '# case' line before it>" % (exe, res.seed, n)})
         cases = [int(x.split()[2]) for x in out.split("\n") if x.startswith("# case ")]
@@ -578,6 +599,8 @@ def c17(res, thorough):
     res.cov["distinct_nontrivial"] = res.cov.get("evaluations", 0)
     if lines:
         res.sample({"input": lines[0][:300]})
+    # tie D for the Lean model of CuckooSet (Algo/Cuckoo): layout-exact agreement after every operation
+    cuckoo_tie.cuckoo_tie(res, thorough)
 
 
 def c09(res, thorough):
